@@ -53,7 +53,10 @@ def run(chk):
     pe = PE(src)
     chk.rule_text = "path(origin -> target) == reference path, for every ordering of scales and walls"
     wall_sets = [[10, 20, 30], [10, 10, 30], [10, 20, 20], [20, 20, 20], [0, 0, float("inf")], [0, 20, float("inf")],
-                 [0, 0, 0], [float("inf")] * 3]
+                 [0, 0, 0], [float("inf")] * 3,
+                 # matching scales that are NOT in quark order (a large charm ratio, a small bottom ratio): every step must still
+                 # sit on the scale of the quark it (de)activates
+                 [30, 20, 40], [20, 40, 10]]
     if chk.tier == "quick":
         probes = lambda ws: sorted({Fraction(x) for w in ws if w not in (0, float("inf")) for x in (w, w - 5, w + 5)} | {Fraction(7)})
     else:
@@ -66,7 +69,10 @@ def run(chk):
     seen_shapes = set()
     for walls in wall_sets:
         pts = probes(walls)
+        ordered = all(a <= b for a, b in zip(walls, walls[1:]))
         for mu0, nf0, muf, nff in itertools.product(pts, (3, 4, 5, 6), pts, (3, 4, 5, 6, None)):
+            if nff is None and not ordered:
+                continue  # the default flavour number needs monotonic matching scales; explicit flavour numbers do not
             n_cases += 1
             inst = f"walls={walls},origin=({mu0},{nf0}),target=({muf},{nff})"
             try:
